@@ -265,6 +265,10 @@ def literal_cases(rng):
         s = "".join(rng.choice(alphabet) for _ in range(rng.randint(0, 12)))
         cases.append(('"%s"' % s, s, str, "string"))
     cases.append(('"a // b /* c */ end M;"', "a // b /* c */ end M;", str, "string-with-comment-chars"))
+    # escape sequences: the AST may keep the source spelling or decode it, but nothing else
+    for raw, dec in (('say \\"hi\\"', 'say "hi"'), ('\\"', '"'), ('5 inch = 5\\"', '5 inch = 5"'), ('a\\\\', 'a\\'),
+                     ('tab\\there', 'tab\there'), ('\\"lead', '"lead'), ('mid\\"dle', 'mid"dle'), ('q\\\\\\"', 'q\\"')):
+        cases.append(('"%s"' % raw, (raw, dec), str, "string-with-escapes"))
     return cases
 
 
@@ -288,6 +292,12 @@ def check_literal(ctx, builds, text, value, typ, form, pos):
             continue
         ctx.monitor("literal_comparisons")
         ctx.cover("literal:" + form)
+        if isinstance(value, tuple):
+            # escape sequences: source spelling or decoded value are both "the exact value"
+            if type(got) is not str or got not in value:
+                ctx.violation("C03:literal:%s:wrong-value-or-type" % form,
+                              "literal %s parsed as %r, expected %r (source spelling) or %r (decoded)" % (text, got, value[0], value[1]), case)
+            continue
         if type(got) is not typ or got != value:
             ctx.violation("C03:literal:%s:wrong-value-or-type" % form,
                           "literal %s parsed as %r (%s), expected %r (%s)" % (
